@@ -80,17 +80,17 @@ def ids_depth_monotone_full : Prop :=
 
 /-! ### The hypothesis `NoDupEmbed` cannot be dropped: the known finding `dup-embed-kept` -/
 
-private def emb (n : Bytes) (t : StructId) : FieldDecl := { goName := n, anonymous := true, ty := .struct t }
-private def leaf (n : Bytes) : FieldDecl := { goName := n }
+def emb (n : Bytes) (t : StructId) : FieldDecl := { goName := n, anonymous := true, ty := .struct t }
+def leaf (n : Bytes) : FieldDecl := { goName := n }
 
 /-- `type U struct{X int}; type T struct{U; Y int}; type A struct{T}; type B struct{T}; type Root struct{A; B}`
 (ids: Root 0, A 1, T 2, U 3, B 4). -/
 def dupGraph : Graph :=
   [[emb [0x41] 1, emb [0x42] 4], [emb [0x54] 2], [emb [0x55] 3, leaf [0x59]], [leaf [0x58]], [emb [0x54] 2]]
 
-private def optsX : FieldOpts := { name := [0x58] }
+def optsX : FieldOpts := { name := [0x58] }
 
-private theorem dup_all :
+theorem dup_all :
     (search dupGraph 0).all = [⟨0, [0, 0, 1], { name := [0x59] }⟩, ⟨1, [1, 0, 1], { name := [0x59] }⟩, ⟨2, [0, 0, 0, 0], optsX⟩] := by
   decide
 
